@@ -371,7 +371,8 @@ func (s *Sched) watch() {
 					allBlocked = false
 				}
 			}
-			if allBlocked && still >= 10 {
+			// two seconds without any progress (a worker goroutine of the code under test may be busy on the clients' behalf)
+			if allBlocked && still >= 1000 {
 				s.deadlock("every remaining client waits in a synchronisation primitive and nobody is left to release them")
 				s.mu.Unlock()
 				return
